@@ -705,11 +705,14 @@ func (propC05) Describe() PropDoc {
 	}
 }
 
-// processCPU returns the user+system CPU time this process has consumed.
+// processCPU returns the user-mode CPU time this process has consumed. System time is left
+// out on purpose: in this kind of VM the page faults of freshly allocated canvases cost
+// seconds of system time as soon as several processes allocate at once, which says nothing
+// about the code under test, while work that is out of proportion burns user time.
 func processCPU() time.Duration {
 	var ru syscall.Rusage
 	if err := syscall.Getrusage(syscall.RUSAGE_SELF, &ru); err != nil {
 		return 0
 	}
-	return time.Duration(ru.Utime.Nano() + ru.Stime.Nano())
+	return time.Duration(ru.Utime.Nano())
 }
